@@ -65,7 +65,7 @@ func (w *faultWriter) fail() {
 
 func genC12(t *rapid.T) gen.ProgCase {
 	g := &gen.G{T: t, P: gen.Profile{Unicode: true, HTMLChars: true, Directives: true}}
-	return gen.GenProgram(g, gen.ProgOpts{MaxTemplates: 4, MaxDepth: 3, MaxCmds: 4, ExprDepth: 2, PosWeight: 2, CallWeight: 8, MinTemplates: 1})
+	return gen.GenProgram(g, gen.ProgOpts{MaxTemplates: 4, MaxDepth: 3, MaxCmds: 4, ExprDepth: 2, PosWeight: 2, CallWeight: 8, MinTemplates: 1, MsgWeight: 8})
 }
 
 func renderTo(cb *compiled, c gen.ProgCase, w io.Writer) (err error, pn interface{}) {
